@@ -34,6 +34,9 @@ CHECKS = {
  "C10": ("Runtime post-conditions on evaluate_new_data for frames in which the driver plants an unseen level (predictor, effect variable, grouping variable, component of an interaction factor; str/object/Categorical/int-code columns) on a random row set, under all three modes with the mode changed between evaluations of the same design: error raises; warning/silent zero exactly the columns involving the variable on exactly those rows, leave every other entry equal to a shadow evaluation with a seen level, warn / stay silent; group terms get exactly one trailing block per term of an affected factor with the effect on exactly those rows, contiguous slices and exact factors_with_new_levels. An icontract invariant on Config plus an exhaustive driver over keys x values x assignment styles decides the configuration clause.",
          "Unseen levels are planted in one variable at a time; what the group part does in 'error' mode is not stated and not judged; ordered categoricals are not planted.",
          "runtime post-condition monitor with shadow execution (seen-level substitution) + icontract class invariant on Config with exhaustive configuration driver"),
+ "C11": ("Boundary check with per-scope sentinels: the same name is planted in every subset of {data frame, caller locals, caller globals, extra_namespace} (x built-in or not) with a distinct value per scope and per stack level, for the roles argument / backquoted argument / keyword value (plain, compound expression, nested call) / callee / dotted callee (a.f, a.b.f) / None-valued binding, at env depths 0..3 through generated nested callers that live in different module dictionaries, through the monitored entry point and the raw function; the observed value identifies the winning scope, which must be the first defining scope in the documented order, from the frame env selects (locals AND globals), and an undefined name must raise.",
+         "The configuration space is enumerated completely for the listed roles (exhaustive: true); other ways of naming things (attribute access on arguments, names inside subscripts) are outside the formula language.",
+         "runtime boundary monitor over an exhaustively enumerated configuration space with identifying sentinels"),
 }
 NOT_APPLICABLE = {}
 PENDING = [f"C{i:02d}" for i in range(1, 18) if f"C{i:02d}" not in CHECKS]
